@@ -73,10 +73,12 @@ CPow(a, k) == IF k = 0 THEN C1 ELSE CMul(a, CPow(a, k - 1))
 \* ---------- matrices [1..n -> [1..m -> Gaussian]]
 Minor(M, n, i, j) == [r \in 1..(n-1) |-> [c \in 1..(n-1) |-> M[IF r < i THEN r ELSE r+1][IF c < j THEN c ELSE c+1]]]
 RECURSIVE Det(_,_)
+\* Laplace expansion along the LAST row, skipping zero entries: the rows that modified nodal
+\* analysis appends for ideal voltage sources have at most two non-zero entries
 Det(M, n) == IF n = 0 THEN C1 ELSE IF n = 1 THEN M[1][1]
              ELSE IF n = 2 THEN CSub(CMul(M[1][1], M[2][2]), CMul(M[1][2], M[2][1]))
-             ELSE CSumF([j \in 1..n |-> IF CIsZero(M[1][j]) THEN C0 ELSE
-                          LET t == CMul(M[1][j], Det(Minor(M, n, 1, j), n-1)) IN IF j % 2 = 1 THEN t ELSE CNeg(t)], 1, n)
+             ELSE CSumF([j \in 1..n |-> IF CIsZero(M[n][j]) THEN C0 ELSE
+                          LET t == CMul(M[n][j], Det(Minor(M, n, n, j), n-1)) IN IF (n + j) % 2 = 0 THEN t ELSE CNeg(t)], 1, n)
 ReplaceCol(M, n, j, b) == [r \in 1..n |-> [c \in 1..n |-> IF c = j THEN b[r] ELSE M[r][c]]]
 Cramer(M, n, b) == LET d == Det(M, n) IN [j \in 1..n |-> CDiv(Det(ReplaceCol(M, n, j, b), n), d)]
 Inverse(M, n) == LET d == Det(M, n) IN
